@@ -173,3 +173,5 @@ def run(P, R, tier):
             for grp in need[t.attr]:
                 for a in grp:
                     R.check(c.has_attr(a), "DEP.ml", f.key, f"{mp}.{t.attr} depends on .{a}", "", f"the ML update of {t.attr} does not depend on {a}", st.lineno)
+    from ..engines import proto as _pp
+    _pp.check_pairwise_folds(P, R, ['gmm', 'utils'])
